@@ -25,7 +25,7 @@ static void on_hang(const HangInfo& hi) {
     int cls = hc.cls.load(), inflight = hc.inflight.load(), exc = hc.exceptions.load();
     std::string kind = hi.quiescent ? "quiescent" : hi.spin_stall ? "spin-stall" : "";
     std::string calls;
-    for (int t = 0; t <= Pool::kMax; t++) { int k = hc.cur_kind[t].load(); if (k >= 0) calls += (t == Pool::kMax ? std::string("coordinator") : "thread " + std::to_string(t)) + " inside " + kind_names[k] + " arg " + std::to_string(hc.cur_arg[t].load()) + "; "; }
+    for (int t = 0; t <= Pool::kMax + 1; t++) { int k = hc.cur_kind[t].load(); if (k >= 0) calls += (t >= Pool::kMax ? std::string("coordinator") : "thread " + std::to_string(t)) + " inside " + kind_names[k] + " arg " + std::to_string(hc.cur_arg[t].load()) + "; "; }
     std::string d = "no progress for " + std::to_string((int)hi.stalled_for) + " s (" + (hi.quiescent ? "quiescent: every thread asleep and unscheduled" : hi.spin_stall ? "spin-stall: every runnable thread burnt its CPU budget, nothing was constructed or allocated meanwhile" : "hard limit") +
         "); class " + cls_name(cls) + " phase " + std::to_string(hc.phase.load()) + " (1 concurrent part, 2 growth after the failed call); growth calls in flight: " + std::to_string(inflight) + " [" + calls + "]; growth calls of this vector that ended with an exception before: " + std::to_string(exc) +
         "\nthreads: " + hi.threads + "\n" + rings_dump(8);
@@ -70,9 +70,14 @@ int main(int argc, char** argv) {
     std::vector<uint64_t> hn = parse_list(a.str("hn", "0x80000000,0x80000005"));
     int hthreads = (int)a.num("hthreads", 1); uint64_t hold = (uint64_t)strtoull(a.str("hold", "0").c_str(), nullptr, 0);
     WatchdogCfg wc;
+    // every growth call of the normal classes takes micro- to milliseconds and the huge class ticks progress from the element
+    // constructor, so 5 s of CPU burnt by every runnable thread without a single completion is a stall; the waits of the known defect
+    // yield between polls, so on a loaded machine the budget is reached slowly: leave plenty of room before giving up as inconclusive
+    wc.spin_cpu_s = a.dbl("spin-cpu", 5.0); wc.hard_limit_s = a.dbl("hard-limit", 700.0);
     watchdog_start(wc, on_hang);
     Rng top(mix(R.seed, 0xC11));
     long n_s = R.seed % 97, n_e = R.seed % 89, n_m = R.seed % 83;
+    if (mode == "H" && cases > (long)hn.size()) cases = (long)hn.size();      // the list of sizes is the volume of this class (VERIF_SCALE does not repeat it)
     for (long k = 0; k < cases; k++) {
         int cls;
         if (mode == "mix") { static const char rot[] = "GGEGGSGGGEGSGGGS"; cls = rot[k % (sizeof rot - 1)]; }
